@@ -50,6 +50,12 @@ def _generate_model_code(
     # Model components
     variables = model.get_initial_conditions()
     parameters = dict(model.get_parameter_values())
+    # A parameter defined by an initial assignment is not among these: it enters with
+    # the value the model holds for it (resolved once, as in the model's own rhs)
+    all_parameter_values = model._create_cache().all_parameter_values  # noqa: SLF001
+    for name in model.get_parameter_names():
+        if name not in parameters:
+            parameters[name] = float(all_parameter_values[name])
 
     if imports is not None:
         source.extend(imports)
